@@ -40,8 +40,8 @@ CLAIMS = {
         text="for every entry of CODE_API_MAP and symbolic arguments over the documented domain: the command has the registered verb/code, its payload is in the schema regex's language, the library's own decoder accepts the frame and (where stated) the decoded payload carries the values passed in; out-of-domain zone indexes are refused -- SMT-discharged on the real constructors, Command.__init__ and parsers; six constructors violate it on the unchanged tree and are listed known findings",
         note="trusted: pyvc semantics, z3; the temperature codec and hex_to_str by their C04/C05 contracts (modular); get_opentherm_data over all 256 msg-ids by an exhaustive native enumeration (its parity computation is outside the solver's reach) -- complete for that finite domain but not an SMT proof; set_fan_param / put_bind only for sample parameters / code lists"),
     "C09": dict(cat="other", ref="DESIGN.md 5/C09",
-        text="partial, bounded in depth: the real ProtocolContext (send_cmd, _check_buffer_for_cmd, set_state with effect_state and expire_state_on_timeout, _send_cmd, the state classes) is executed against an event-loop contract that only admits schedules asyncio can produce, with the real coroutines suspended at their awaits; for EVERY episode of at most 3 outside events (echo / reply / unrelated packet arrives, the running timer expires, the caller's timeout fires) interleaved anywhere with the loop's queued work, with one caller or two: no exception reaches the loop's exception handler (no internal consistency check trips), every caller is answered, when traffic stops the sender is idle with nothing in flight or queued, and a fresh command is then transmitted -- SMT-discharged over all those schedules",
-        note="bounded: episodes of <= 3 events from an idle sender, nothing is claimed beyond; loop / Future / Task / wait_for / sleep are contracts from CPython 3.12's ordering rules (an assumption); disconnect/reconnect, write failures and whole-history liveness are NOT decided"),
+        text="partial, bounded in depth: the real ProtocolContext (send_cmd, _check_buffer_for_cmd, set_state with effect_state and expire_state_on_timeout, _send_cmd, the state classes) is executed against an event-loop contract that only admits schedules asyncio can produce, with the real coroutines suspended at their awaits; for EVERY episode of at most 3 outside events (echo / reply / unrelated packet arrives, the running timer expires, the caller's timeout fires; with one caller also: the connection is lost / made) interleaved anywhere with the loop's queued work, with one caller or two: no exception reaches the loop's exception handler (no internal consistency check trips), every caller is answered, when traffic stops the sender is idle (inactive if disconnected) with nothing in flight or queued, a send while disconnected is refused at once, and a fresh command is then transmitted -- SMT-discharged over all those schedules",
+        note="bounded: episodes of <= 3 events from an idle sender, nothing is claimed beyond; loop / Future / Task / wait_for / sleep are contracts from CPython 3.12's ordering rules (an assumption); disconnect/reconnect only for one caller; write failures and whole-history liveness are NOT decided"),
     "C07": dict(cat="other", ref="DESIGN.md 5/C07",
         text="partial: over the same bounded episodes as C09 (one or two callers, <= 3 outside events, any realisable interleaving) a send returns a packet of ITS OWN command -- the reply when one is awaited -- or raises an error of the protocol-error family, never another command's packet, and fails without its caller's timeout only after its whole retry budget was transmitted; structurally, send_cmd suspends at exactly one place, asyncio.wait_for(fut, min(qos.timeout, 20 s))",
         note="'never hangs / finishes within the caller's timeout' rests on asyncio.wait_for's contract (assumed) plus the structural obligation; header correlation itself is C06; the impersonation notice, transport faults and more than two concurrent callers are NOT decided"),
